@@ -6,9 +6,11 @@ package main
 //	opt      := "SL" n loader^n   app.SetConfigLoader(…)        | "AL" n loader^n   app.AddConfigLoader(…)
 //	          | "CA" n loader^n   option calling s.Configure.AddLoaders(…)
 //	          | "SC" n loader^n   app.SetConfigure(fresh configure holding the loaders)
-//	          | "SF" loader       app.SetConfig(file)           (loader is `f …`)
+//	          | "SF" loader       app.SetConfig(file)           (loader is `f …` or `~ k`: the same path once more)
 //	loader   := "r" out | "f" out | "p" int out | "o" int out  raw / file / Priority raw / Ordered raw (harness types)
 //	          | "a" n (pathhex node)^n                         loader.NewArgsLoader with n `--app.config=path=value`
+//	          | "=" k                                          the very same loader value/object as the k-th loader of the line
+//	          | "~" k                                          a new loader.NewFileLoader on the path of the k-th loader (an `f`)
 //	out      := "E" (no bytes) | "X" (LoadConfig fails / file missing) | node
 //	node     := "M" n (keyhex node)^n | "L" n node^n | "P"hex (plain scalar) | "Q"hex (quoted string) | "N" (null)
 //	path     := hex of the dotted path, `-` = ""
@@ -27,7 +29,13 @@ package main
 //     when an earlier document has a map and a later one a non-map at the path or one of its prefixes, a
 //     mismatch is reported with the signature `map-then-scalar` (known finding KF-C15-1);
 //   - every loader that is in the effective list (set replaces, add/file/Configure.AddLoaders append) is
-//     consulted: its private marker key is visible (`add-discards` when it was configured before a later add).
+//     consulted: its private marker key (when its document holds one) is visible (`add-discards` when it was
+//     configured before a later add).
+//
+// Repeated documents: about one generated source set in five holds the same document twice (same bytes in two
+// loaders of any kind, the same file path in two FileLoaders, or one loader object added twice) with a different
+// document that overlaps in keys between the two positions of the effective loader sequence (tag `repeat-xyx`):
+// the last one wins also when its content was merged before.
 
 import (
 	"fmt"
@@ -74,6 +82,8 @@ type cloader struct {
 	doc   *cnode
 	pairs []cpair
 	id    int
+	ref   string // "" | "=" (same object as loader #to) | "~" (new FileLoader on the path of loader #to)
+	to    int
 }
 
 type copt struct {
@@ -102,6 +112,10 @@ func (n *cnode) toks(out *[]string) {
 }
 
 func (l *cloader) toks(out *[]string) {
+	if l.ref != "" {
+		*out = append(*out, l.ref, strconv.Itoa(l.to))
+		return
+	}
 	switch l.kind {
 	case "a":
 		*out = append(*out, "a", strconv.Itoa(len(l.pairs)))
@@ -150,6 +164,7 @@ type ctoks struct {
 	t   []string
 	pos int
 	bad bool
+	all []*cloader // the loaders of the line so far; loader #k is all[k-1]
 }
 
 func (c *ctoks) next() string {
@@ -207,8 +222,24 @@ func (c *ctoks) node() *cnode {
 }
 
 func (c *ctoks) loader() *cloader {
+	l := c.loader1()
+	l.id = len(c.all) + 1
+	c.all = append(c.all, l)
+	return l
+}
+
+func (c *ctoks) loader1() *cloader {
 	l := &cloader{kind: c.next(), out: 'D'}
 	switch l.kind {
+	case "=", "~":
+		ref, k := l.kind, c.num()
+		if c.bad || k < 1 || k > len(c.all) || (ref == "~" && c.all[k-1].kind != "f") {
+			c.bad = true
+			return l
+		}
+		cp := *c.all[k-1]
+		cp.ref, cp.to = ref, k
+		return &cp
 	case "a":
 		for k := c.num(); k > 0 && !c.bad; k-- {
 			p, err := hx.UnHex(c.next())
@@ -236,7 +267,6 @@ func (c *ctoks) loader() *cloader {
 func cfgParse(scn string) ([]copt, []string, bool) {
 	c := &ctoks{t: strings.Split(scn, " ")}
 	var opts []copt
-	id := 1
 	for !c.bad {
 		op := c.next()
 		if op == "|" {
@@ -246,7 +276,7 @@ func cfgParse(scn string) ([]copt, []string, bool) {
 		switch op {
 		case "SF":
 			o.ls = []*cloader{c.loader()}
-			if o.ls[0].kind != "f" {
+			if o.ls[0].kind != "f" || o.ls[0].ref == "=" {
 				c.bad = true
 			}
 		case "SL", "AL", "CA", "SC":
@@ -255,10 +285,6 @@ func cfgParse(scn string) ([]copt, []string, bool) {
 			}
 		default:
 			c.bad = true
-		}
-		for _, l := range o.ls {
-			l.id = id
-			id++
 		}
 		opts = append(opts, o)
 	}
@@ -399,8 +425,10 @@ func (cfgFailRaw) LoadConfig() ([]byte, error) { return nil, errors.New("harness
 // ---------------------------------------------------------------- running the real code
 
 type cfgEnv struct {
-	dir string
-	seq int
+	dir   string
+	seq   int
+	objs  map[int]configure.Loader // per case: loader #id as handed to the real code
+	paths map[int]string           // per case: the file path of file loader #id
 }
 
 func newCfgEnv() *cfgEnv {
@@ -414,6 +442,15 @@ func newCfgEnv() *cfgEnv {
 func (e *cfgEnv) close() { os.RemoveAll(e.dir) }
 
 func (e *cfgEnv) filePath(l *cloader) string {
+	p := e.filePath1(l)
+	e.paths[l.id] = p
+	return p
+}
+
+func (e *cfgEnv) filePath1(l *cloader) string {
+	if l.ref != "" {
+		return e.paths[l.to]
+	}
 	e.seq++
 	p := filepath.Join(e.dir, fmt.Sprintf("c%d_%d.yaml", e.seq, l.id))
 	switch l.out {
@@ -428,6 +465,20 @@ func (e *cfgEnv) filePath(l *cloader) string {
 }
 
 func (e *cfgEnv) realLoader(l *cloader) configure.Loader {
+	var o configure.Loader
+	if l.ref == "=" {
+		o = e.objs[l.to]
+		if l.kind == "f" {
+			e.paths[l.id] = e.paths[l.to]
+		}
+	} else {
+		o = e.realLoader1(l)
+	}
+	e.objs[l.id] = o
+	return o
+}
+
+func (e *cfgEnv) realLoader1(l *cloader) configure.Loader {
 	var data []byte
 	if l.out == 'D' && l.kind != "a" {
 		data = []byte(yamlOf(l.doc))
@@ -489,6 +540,7 @@ func canonKeys(keys []string) string {
 
 func cfgRun(env *cfgEnv, opts []copt, paths []string, tags []string, w *hx.Writer) {
 	c := hx.Case{Scn: cfgScn(opts, paths), Tags: tags}
+	env.objs, env.paths = map[int]configure.Loader{}, map[int]string{}
 	var sopts []app.SettingOption
 	for _, o := range opts {
 		var ls []configure.Loader
@@ -510,7 +562,9 @@ func cfgRun(env *cfgEnv, opts []copt, paths []string, tags []string, w *hx.Write
 			cf.SetLoaders(ls...)
 			sopts = append(sopts, app.SetConfigure(cf))
 		case "SF":
-			sopts = append(sopts, app.SetConfig(env.filePath(o.ls[0])))
+			p := env.filePath(o.ls[0])
+			env.objs[o.ls[0].id] = loader.NewFileLoader(p) // FileLoader is a string: the value SetConfig builds
+			sopts = append(sopts, app.SetConfig(p))
 		}
 	}
 	var a *app.App
@@ -643,10 +697,11 @@ func prefixesOf(p string) []string {
 	return out
 }
 
-func cfgOracle(opts []copt, paths, got []string, obs, panText string) string {
-	// effective loader list, as the option names say
+// cfgSeq: the effective loader list as the option names say (set replaces, everything else appends), put into
+// the loader sequence of the property: priority loaders by Order, then ordered loaders by Order, then the rest as added
+func cfgSeq(opts []copt) (seq []*cloader, beforeAdd map[int]bool) {
 	var cur []*cloader
-	beforeAdd := map[int]bool{}
+	beforeAdd = map[int]bool{}
 	for _, o := range opts {
 		switch o.op {
 		case "SL", "SC":
@@ -678,8 +733,11 @@ func cfgOracle(opts []copt, paths, got []string, obs, panText string) string {
 	}
 	sort.SliceStable(pr, func(i, j int) bool { return ord(pr[i]) < ord(pr[j]) })
 	sort.SliceStable(or, func(i, j int) bool { return ord(or[i]) < ord(or[j]) })
-	seq := append(append(pr, or...), rest...)
+	return append(append(pr, or...), rest...), beforeAdd
+}
 
+func cfgOracle(opts []copt, paths, got []string, obs, panText string) string {
+	seq, beforeAdd := cfgSeq(opts)
 	wantErr, wantPanic := false, false
 	var views []*cfgDocView
 	var viewLoader []*cloader
@@ -727,9 +785,12 @@ func cfgOracle(opts []copt, paths, got []string, obs, panText string) string {
 	for i, p := range paths {
 		gotAt[strings.ToLower(p)] = got[i]
 	}
-	// every effective source is consulted
-	for _, l := range viewLoader {
+	// every effective source is consulted (a repeated document carries the marker of its first copy)
+	for j, l := range viewLoader {
 		m := fmt.Sprintf("m%d", l.id)
+		if views[j].leaf[m] != "s:"+hx.Hex(strconv.Itoa(l.id)) {
+			continue
+		}
 		if g, ok := gotAt[m]; ok && g != "s:"+hx.Hex(strconv.Itoa(l.id)) {
 			sig := "source-lost"
 			if beforeAdd[l.id] {
@@ -849,6 +910,17 @@ func cfgCorpus(w *hx.Writer) {
 		"AL 1 r M 1 61 P31 SC 1 r M 1 62 P32 AL 1 r M 1 63 P33 | 61 62 63 -",
 		"SL 1 r P35 | 61",
 		"SL 1 r M 2 61 M 0 62 P31 | 61 62 -",
+		// X, Y, X: a document that was merged before is merged again when it comes last (a: 1 9 1, b: 2, c: 3)
+		"SL 3 r M 2 61 P31 62 P32 r M 2 61 P39 63 P33 r M 2 61 P31 62 P32 | 61 62 63 -",
+		// the same as file(X), raw(Y), raw(X): same bytes from two kinds of loader; nested overlap
+		"AL 2 r M 2 61 M 1 62 P39 63 P33 r M 1 61 M 2 62 P31 64 P35 SF f M 1 61 M 2 62 P31 64 P35 | 612e62 612e64 63 61 -",
+		// one loader object added twice (AddConfigLoader), one file path added twice (SetConfig, FileLoader), same args twice
+		"SL 1 r M 1 61 P31 AL 1 r M 1 61 P39 AL 1 = 1 | 61 -",
+		"SF f M 2 61 P31 62 P32 AL 1 f M 1 61 P39 SF ~ 1 | 61 62 -",
+		"SL 3 f M 1 61 P31 p 0 M 1 61 P39 ~ 1 | 61 -",
+		"SL 3 a 2 " + h("a.b") + " P31 " + h("c") + " P32 a 1 " + h("a.b") + " P39 a 2 " + h("a.b") + " P31 " + h("c") + " P32 | 612e62 63 61 -",
+		// X, X, Y: the adjacent repeat changes nothing, Y still wins
+		"SL 3 o 1 M 1 61 P31 = 1 o 1 M 1 61 P39 | 61",
 	} {
 		opts, paths, ok := cfgParse(scn)
 		if !ok {
@@ -1004,6 +1076,186 @@ func collectPaths(n *cnode, prefix string, add func(string)) {
 	}
 }
 
+// graftDoc sets the path (matched case-insensitively, new keys in lower case) in a document to val; false when a
+// non-map is in the way
+func graftDoc(n *cnode, segs []string, val *cnode) bool {
+	for i, s := range segs {
+		idx := -1
+		for j, k := range n.keys {
+			if strings.EqualFold(k, s) && idx < 0 {
+				idx = j
+			}
+		}
+		if i == len(segs)-1 {
+			if idx < 0 {
+				n.keys = append(n.keys, strings.ToLower(s))
+				n.vals = append(n.vals, val)
+			} else {
+				n.vals[idx] = val
+			}
+			return true
+		}
+		if idx < 0 {
+			n.keys = append(n.keys, strings.ToLower(s))
+			n.vals = append(n.vals, &cnode{kind: 'M'})
+			idx = len(n.keys) - 1
+		}
+		if n.vals[idx].kind != 'M' {
+			return false
+		}
+		n = n.vals[idx]
+	}
+	return false
+}
+
+// graftArgs appends one `path=val` pair to an args loader, spelling the segments as the loader already does
+func graftArgs(l *cloader, segs []string, val *cnode) bool {
+	t, ok := argsTree(l.pairs)
+	if !ok {
+		return false
+	}
+	sp := make([]string, len(segs))
+	for i, s := range segs {
+		sp[i] = strings.ToLower(s)
+		if t == nil {
+			continue
+		}
+		var nx *cnode
+		for j, k := range t.keys {
+			if strings.EqualFold(k, s) {
+				sp[i] = k
+				nx = t.vals[j]
+				break
+			}
+		}
+		if nx != nil && nx.kind != 'M' && i < len(segs)-1 {
+			return false
+		}
+		t = nx
+	}
+	l.pairs = append(l.pairs, cpair{strings.Join(sp, "."), val})
+	return true
+}
+
+// the leaves of the document a loader stands for, without its marker
+func cfgLeaves(l *cloader) []cpair {
+	var ps []cpair
+	if l.kind == "a" {
+		ps = append(ps, l.pairs...)
+	} else if l.out == 'D' {
+		flattenPairs(l.doc, "", &ps)
+	}
+	var out []cpair
+	for _, p := range ps {
+		if p.path != fmt.Sprintf("m%d", l.id) {
+			out = append(out, p)
+		}
+	}
+	return out
+}
+
+func cfgViewOfLoader(l *cloader) *cfgDocView {
+	if l.kind == "a" {
+		if t, ok := argsTree(l.pairs); ok && len(l.pairs) > 0 {
+			return viewOf(t)
+		}
+		return nil
+	}
+	if l.out == 'D' && l.doc.kind == 'M' {
+		return viewOf(l.doc)
+	}
+	return nil
+}
+
+// cfgRepeatPlan turns loaders[ri], loaders[rj] and the still empty slot rk (ri < rj < rk) into X, Y, X: the slot
+// becomes a repetition of loaders[ri] (same bytes in a new loader / the same object / the same file path), the
+// classes and orders of the three are chosen so that SortOrderedComponents keeps them in this order, and Y gets a
+// different value at one of X's paths.
+func (g *cfgGenSt) repeatPlan(loaders []*cloader, ri, rj, rk int) string {
+	r := g.r
+	x, y := loaders[ri], loaders[rj]
+	xa, ya := x.kind == "a", y.kind == "a"
+	mode := "bytes"
+	switch k := r.Intn(12); {
+	case k < 3:
+		mode = "="
+	case k < 5 && !xa && !ya:
+		mode = "~"
+	}
+	kindFor := func(rank, order int) (string, int) {
+		switch {
+		case rank == 0 && order == 0 && r.Bool():
+			return "f", 0
+		case rank == 0:
+			return "p", order
+		case rank == 1:
+			return "o", order
+		}
+		return "r", order
+	}
+	rankOf := func(l *cloader) (int, int) {
+		switch l.kind {
+		case "f":
+			return 0, 0
+		case "p":
+			return 0, l.order
+		case "o":
+			return 1, l.order
+		}
+		return 2, 0
+	}
+	cp := &cloader{id: rk + 1, kind: x.kind, order: x.order, out: x.out, doc: x.doc}
+	switch {
+	case xa:
+		if !ya {
+			y.kind = "r"
+		}
+	case mode == "~":
+		x.kind, x.order = "f", 0
+		y.kind, y.order = kindFor(0, 0)
+	case mode == "=":
+		if ya {
+			x.kind = "r"
+		} else {
+			y.kind, y.order = kindFor(rankOf(x))
+		}
+	default:
+		ts := [][2]int{}
+		for i := 0; i < 3; i++ {
+			ts = append(ts, [2]int{r.Intn(3), []int{-2, -1, 0, 0, 1, 3}[r.Intn(6)]})
+		}
+		sort.Slice(ts, func(i, j int) bool { return ts[i][0] < ts[j][0] || (ts[i][0] == ts[j][0] && ts[i][1] < ts[j][1]) })
+		if ya {
+			ts[1][0], ts[2][0] = 2, 2
+		}
+		x.kind, x.order = kindFor(ts[0][0], ts[0][1])
+		if !ya {
+			y.kind, y.order = kindFor(ts[1][0], ts[1][1])
+		}
+		cp.kind, cp.order = kindFor(ts[2][0], ts[2][1])
+	}
+	if mode != "bytes" {
+		cp.kind, cp.order, cp.ref, cp.to = x.kind, x.order, mode, ri+1
+	}
+	if xa {
+		cp.kind = "a"
+	}
+	// Y differs from X at one of X's paths
+	if lv := cfgLeaves(x); len(lv) > 0 {
+		for try := 0; try < 3; try++ {
+			p := lv[r.Intn(len(lv))]
+			val := &cnode{kind: 'P', text: "y" + strconv.Itoa(r.Intn(3))}
+			segs := strings.Split(p.path, ".")
+			if (ya && graftArgs(y, segs, val)) || (!ya && graftDoc(y.doc, segs, val)) {
+				break
+			}
+		}
+	}
+	cp.pairs = x.pairs // after a possible change of x (none today) and with x's marker: the same arguments
+	loaders[rk] = cp
+	return map[string]string{"bytes": "repeat-same-bytes", "=": "repeat-same-object", "~": "repeat-same-path"}[mode]
+}
+
 func cfgGenCase(r *hx.Rng) ([]copt, []string, []string) {
 	g := &cfgGenSt{r: r, role: map[string]byte{}, conflict: r.P(1, 8), tags: map[string]bool{}}
 	nl := 1 + r.Intn(5)
@@ -1011,10 +1263,23 @@ func cfgGenCase(r *hx.Rng) ([]copt, []string, []string) {
 	if r.P(1, 30) {
 		failing = r.Intn(nl)
 	}
+	// a repeated document: slots ri < rj < rk become X, Y, X (see repeatPlan)
+	ri, rj, rk := -1, -1, -1
+	if r.P(2, 9) {
+		nl, failing = 3+r.Intn(3), -1
+		p := r.Perm(nl)[:3]
+		sort.Ints(p)
+		ri, rj, rk = p[0], p[1], p[2]
+	}
 	var loaders []*cloader
 	kinds := map[string]bool{}
 	for i := 0; i < nl; i++ {
 		l := &cloader{id: i + 1, out: 'D'}
+		if i == rk {
+			loaders = append(loaders, l) // filled in by repeatPlan
+			continue
+		}
+		must := i == ri || i == rj
 		switch k := r.Intn(20); {
 		case k < 6:
 			l.kind = "r"
@@ -1032,7 +1297,7 @@ func cfgGenCase(r *hx.Rng) ([]copt, []string, []string) {
 		marker := &cnode{kind: 'P', text: strconv.Itoa(l.id)}
 		mkey := fmt.Sprintf("m%d", l.id)
 		if l.kind == "a" {
-			if r.P(1, 15) {
+			if r.P(1, 15) && !must {
 				loaders = append(loaders, l) // no --app.config argument at all
 				continue
 			}
@@ -1051,7 +1316,7 @@ func cfgGenCase(r *hx.Rng) ([]copt, []string, []string) {
 		case i == failing:
 			l.out = 'X'
 			g.tags["failing"] = true
-		case r.P(1, 14):
+		case r.P(1, 14) && !must:
 			l.out = 'E'
 			g.tags["empty"] = true
 		default:
@@ -1060,6 +1325,13 @@ func cfgGenCase(r *hx.Rng) ([]copt, []string, []string) {
 			l.doc.vals = append(l.doc.vals, marker)
 		}
 		loaders = append(loaders, l)
+	}
+	if rk >= 0 {
+		g.tags[g.repeatPlan(loaders, ri, rj, rk)] = true
+		kinds = map[string]bool{}
+		for _, l := range loaders {
+			kinds[l.kind] = true
+		}
 	}
 	// option sequence
 	var opts []copt
@@ -1072,7 +1344,7 @@ func cfgGenCase(r *hx.Rng) ([]copt, []string, []string) {
 		first := len(opts) == 0
 		var op string
 		switch k := r.Intn(20); {
-		case l.kind == "f" && k < 10:
+		case l.kind == "f" && k < 10 && l.ref != "=":
 			op = "SF"
 		case k < 4 || (first && k < 11):
 			op = "SL"
@@ -1082,6 +1354,10 @@ func cfgGenCase(r *hx.Rng) ([]copt, []string, []string) {
 			op = "AL"
 		default:
 			op = "CA"
+		}
+		if rk >= 0 && i > ri && (op == "SL" || op == "SC") {
+			// no set after X in a repeated-document case (three cases in four would lose the pattern)
+			op = map[string]string{"SL": "AL", "SC": "CA"}[op]
 		}
 		o := copt{op: op, ls: []*cloader{l}}
 		i++
@@ -1093,6 +1369,27 @@ func cfgGenCase(r *hx.Rng) ([]copt, []string, []string) {
 	}
 	if opts[0].op != "SL" && opts[0].op != "SC" {
 		g.tags["default-kept"] = true
+	}
+	if rk >= 0 {
+		// is the pattern X, Y, X there in the effective loader sequence, with X and Y disagreeing on a leaf?
+		seq, _ := cfgSeq(opts)
+		pos := map[*cloader]int{}
+		for j, l := range seq {
+			pos[l] = j + 1
+		}
+		px, py, pc := pos[loaders[ri]], pos[loaders[rj]], pos[loaders[rk]]
+		vx, vy := cfgViewOfLoader(loaders[ri]), cfgViewOfLoader(loaders[rj])
+		differ := false
+		if vx != nil && vy != nil {
+			for p, a := range vx.leaf {
+				if b, ok := vy.leaf[p]; ok && a != b {
+					differ = true
+				}
+			}
+		}
+		if 0 < px && px < py && py < pc && differ {
+			g.tags["repeat-xyx"] = true
+		}
 	}
 	// query paths
 	seen := map[string]bool{}
